@@ -349,6 +349,22 @@ ADDED_B15 = {
 for _k, _v in ADDED_B15.items():
     CLAIMED[_k]["text"] = CLAIMED[_k]["text"] + " " + _v
 
+ADDED_B16 = {
+    "C01": "Added after the sixteenth batch: C01.28 Required / Partial flip the optionality of object members and rebuild no member type.",
+    "C02": "Added after the sixteenth batch: C02.24 (= C16.8 lifted) the $ref text is a pure function of the name and a definition is stored under its own name.",
+    "C04": "Added after the sixteenth batch: the census classifies further std APIs that panic on their arguments (String::truncate / replace_range, Vec::splice ..).",
+    "C05": "Added after the sixteenth batch: C05.17 the positive argument of an emptiness procedure is never an element of a list of atomic types (negatives are not compared with the exact-vs-structural procedure).",
+    "C07": "Added after the sixteenth batch: C07.16 in the region that subtracts semantic types and materialises the result, no Runtype of an operand reaches the value handed to code generation (taint with the semantic conversion as the barrier).",
+    "C08": "Added after the sixteenth batch: C08.18 outside the printer no condition, match scrutinee or arm guard reads the metadata (descriptions from comments) of a type.",
+    "C09": "Added after the sixteenth batch: C09.21 a frontend function that takes a Visibility reads it on every path to a value exit - 2 known findings, executed (import(\"./t\").Date is the built-in Date; typeof import(\"./t\").priv.a reaches a non-exported const).",
+    "C10": "Added after the sixteenth batch: C10.8 (= C14.10 + C14.6 lifted) the watch glue forwards every change event to the compiler's registry unconditionally.",
+    "C12": "Added after the sixteenth batch: C12.13 a reporter's loop over the input skips an element only on the outcome of validating it.",
+    "C15": "Added after the sixteenth batch: C15.18 printed type text (results of describeTypeExpr / describe, description-record fields filled with them, helper parameters handed them) is never edited as a string.",
+    "C16": "Added after the sixteenth batch: C16.12 (= C13.10 lifted) hash() / hash256() keep no state on the validator instances, so the made-up definition names do not depend on which parser was hashed first.",
+}
+for _k, _v in ADDED_B16.items():
+    CLAIMED[_k]["text"] = CLAIMED[_k]["text"] + " " + _v
+
 NOT_APPLICABLE_REASON = {}
 
 
